@@ -312,6 +312,12 @@ DataReplyOK(b, r) ==
         hasData == Len(r) > rs + 20
     IN
     MirrorTcpS(b, r, AppPortShift("tcp", StreamBefore(t.flow), TcpPayload(b)))
+    \cup (IF hasData /\ RefId(AppMsg("tcp", StreamBefore(t.flow), TcpPayload(b)), FALSE) = "STUN"
+          THEN LET sh == AppPortShift("tcp", StreamBefore(t.flow), TcpPayload(b)) IN
+               IF sh = { 1 } THEN V("C15", "change-port-answered-from-the-next-port", TcpSport(r, rs) = (t.dport + 1) % 65536)
+               ELSE IF sh = { 0 } THEN V("C15", "answered-from-the-contacted-port", TcpSport(r, rs) = t.dport)
+               ELSE {}
+          ELSE {})
     \cup V("C07", "data-reply-has-ack", HasFlag(TcpFlags(r, rs), F_ACK))
     \cup V("C07", "psh-iff-application-data",
            TcpFlags(r, rs) = (IF hasData THEN F_ACK + F_PSH ELSE F_ACK))
